@@ -183,6 +183,11 @@ def r2_accounting_pairs_with_mutation(repo=None):
                     return True
                 if pyfront.call_name(c) in ("self._add_record",):
                     return True
+            a = n.ast
+            if isinstance(a, (ast.Assign, ast.Delete)):
+                for t in a.targets:
+                    if isinstance(t, ast.Subscript) and norm(ast.unparse(t.value)) == "self.records":
+                        return True
             return False
         muts = [n.id for n in bg.nodes if mutates(n)]
         MS = mutation_states(bg, set(muts))
